@@ -287,7 +287,7 @@ class Gen:
         else:
             self.has_blob = False
         if r.random() < 0.5:
-            out += ["E :: enum Num int, Two (int, int), None end"]
+            out += ["E :: enum Num int, Two (int, int), Flag bool, Txt str, None end"]
             self.has_enum = True
         else:
             self.has_enum = False
@@ -315,6 +315,25 @@ class Gen:
                     "    Two t -> t[0] + t[1] end",
                     "    else %s end" % self.int_expr(env, 1),
                     "  end)"]
+            # payloads that are falsy or empty in Lua (false, 0, "") must come back from a case binding unchanged
+            f = self.fresh("e")
+            pay = r.choice(["E.Flag false", "E.Flag true", "E.Flag (%s)" % self.bool_expr(env, 1), "E.Num 0", "E.Txt \"\"",
+                            "E.Two (0, 0)"])
+            out += ["  %s := %s" % (f, pay),
+                    "  print(case %s do" % f,
+                    "    Flag b -> (if b do 1 else 2 end) end",
+                    "    Num n -> (if n == 0 do 3 else 4 end) end",
+                    "    Txt s -> (if s == \"\" do 5 else 6 end) end",
+                    "    Two t -> (if t == (0, 0) do 7 else 8 end) end",
+                    "    else 9 end",
+                    "  end)",
+                    "  case %s do" % f,
+                    "    Flag b ->",
+                    "      print(b)",
+                    "      print(b == false)",
+                    "    end",
+                    "    else print(0) end",
+                    "  end"]
         out += ["  print([1, 2] == [1, %s])" % self.int_atom(env, 0)]
         for name, ar in self.funcs:
             out.append("  print(%s(%s))" % (name, ", ".join(str(r.randint(0, 5)) for _ in range(ar))))
